@@ -5,6 +5,7 @@ import functools
 import inspect
 import random
 
+import common
 from common import Report, proof_stage, coq_eval_files, parse_nat_list
 import gencalc as G
 from gencalc import (Case, Ctx, Obj, Src, SrcNC, run_impl, drive, same_val, canon_result, ITER_TOOLS, AGG_TOOLS, consume_async, run_agg)
@@ -18,7 +19,7 @@ Require Import V.Model.Awaitify V.Model.AwaitifyCase.
 Local Open Scope nat_scope.
 """
 ITER_FLAVOURS = ["list", "getitem", "sync_iter", "async_gen", "async_class"]
-CALL_FLAVOURS = ["def", "async", "partial", "object"]
+CALL_FLAVOURS = ["def", "async", "partial", "object", "awaitobj"]
 
 
 class GetItemSeq:
@@ -91,7 +92,7 @@ def same_outcome(x, y):
 
 
 def awaitify_history(rng):
-    fl = rng.choice(["def", "async", "partial", "object"])
+    fl = rng.choice(["def", "async", "partial", "object", "awaitobj"])
     n = rng.randrange(1, 7)
     reactions = [("value", rng.randrange(5)) if rng.random() < 0.7 else ("raises", rng.randrange(5)) for _ in range(n)]
     return fl, reactions
@@ -123,6 +124,14 @@ def run_awaitify(fl, reactions):
         async def afn2(_d):
             return body()
         fn = functools.partial(afn2, None)
+    elif fl == "awaitobj":
+        class AwObj:
+            def __init__(self, c):
+                self.c = c
+
+            def __await__(self):
+                return self.c.__await__()
+        fn = lambda: AwObj(afn())  # noqa
     else:
         class O:
             def __call__(self):
@@ -182,6 +191,15 @@ def exitstack_flavours(rep, rng, tier):
                         return body(*args)
                     return functools.partial(a2, None)
 
+                if flv == "awaitobj":
+                    class AwObj:
+                        def __init__(self, c):
+                            self.c = c
+
+                        def __await__(self):
+                            return self.c.__await__()
+                    return lambda *args: AwObj(abody(*args))
+
                 class O:
                     def __call__(self, *args):
                         return abody(*args)
@@ -190,7 +208,7 @@ def exitstack_flavours(rep, rng, tier):
             async def go():
                 st = a.ExitStack()
                 for i, (kind, beh) in enumerate(spec):
-                    flv = fl if fl != "mixed" else CALL_FLAVOURS[(i + len(spec)) % 4]
+                    flv = fl if fl != "mixed" else CALL_FLAVOURS[(i + len(spec)) % len(CALL_FLAVOURS)]
                     f = mk(i, kind, beh, flv)
                     if kind == "push":
                         st.push(f)
@@ -244,7 +262,7 @@ def run(tier, seed):
     proofs_ok = proof_stage(rep, "C03")
     rng = random.Random(seed)
     fails = 0
-    per = 12 if tier == "quick" else 150
+    per = 12 * common.scale(rep) if tier == "quick" else 150
     nassign = 3 if tier == "quick" else 8
     dist = {}
     for name in ITER_TOOLS + AGG_TOOLS:
@@ -282,6 +300,21 @@ def run(tier, seed):
         if norm_outcome(c, out) != ("exn", ("TypeError",)):
             fails += 1
             rep.violation("neutrality:sorted", {"iterable": fl, "why": "sorted of unorderable items gave %r instead of TypeError" % (norm_outcome(c, out)[:2],)})
+    # numeric items outside the modelled item domain (floats, mixed numerics): same result for every iterable flavour
+    for data in ([0.1] * 10, [1e16, 1.0, -1e16, 1.0], [2, 1.0, 1, True, 0.5], [3.5, -1, 2, 2.0]):
+        for fname, call in (("sum", lambda it: a.sum(it)), ("min", lambda it: a.min(it)), ("max", lambda it: a.max(it)), ("sorted", lambda it: a.sorted(it, reverse=True)),
+                            ("list", lambda it: a.list(it)), ("nlargest", lambda it: a.nlargest(it, 2))):
+            vals = {}
+            for fl in ITER_FLAVOURS:
+                try:
+                    r = drive(call(flavoured_source(Ctx(None), 0, data, fl)))
+                    vals[fl] = (repr(r), [type(x).__name__ for x in r] if isinstance(r, list) else type(r).__name__)
+                except BaseException as e:  # noqa
+                    vals[fl] = ("exn", type(e).__name__)
+            rep.count(("float", fname, repr(data)), True)
+            if len(set(map(repr, vals.values()))) != 1:
+                fails += 1
+                rep.violation("neutrality:%s-numeric" % fname, {"data": repr(data), "why": "%s depends on the flavour of the iterable: %r" % (fname, vals)})
     # exit callbacks / pushed exits of an ExitStack in every callable flavour: same unwinding
     fails += exitstack_flavours(rep, rng, tier)
     # every public callable is async-shaped for synchronous arguments
@@ -316,7 +349,7 @@ def run(tier, seed):
             fails += 1
             rep.violation("neutrality:awaitify", {"flavour": fl, "reactions": reactions, "why": "awaitify wrapper gave %r, the callable itself %r" % (obs, want)})
             continue
-        cfl = {"def": "FDef", "async": "FAsyncDef", "partial": "FPartialAsync", "object": "FCallableObject"}[fl]
+        cfl = {"def": "FDef", "async": "FAsyncDef", "partial": "FPartialAsync", "object": "FCallableObject", "awaitobj": "FCallableObject"}[fl]
         cr = lambda r: ("RValue %d" if r[0] == "value" else "RRaises %d") % r[1]  # noqa
         texts.append("(mkWC %s [%s] [%s])" % (cfl, "; ".join(cr(r) for r in reactions), "; ".join("(%d, %s)" % (n, cr(r)) for n, r in obs)))
     outs = coq_eval_files("c03", [HEADER + "Definition cases : list wcase := [\n" + ";\n".join(texts) + "\n].\nEval vm_compute in (wfailing cases).\n"])
